@@ -32,6 +32,8 @@ structure In where
   watchers : List WatcherIn
   hist : List (Option Config × Nat)      -- (some cfg, _) = snapshot; (none, w) = attach watcher w
   panics : List (Nat × Nat × Nat × Nat)  -- op, name, kind, body
+  enum : List Int := []                  -- harness "regx": [global index, size of the enumeration]
+  shutdown : Bool := false               -- the harness called the real `Supervisor.close` after the history
 
 def opOfStr : String → Nat
   | "init" => 0 | "inherit" => 1 | _ => 2
@@ -78,7 +80,9 @@ def parseIn (j : Json) : Except String In := do
     let k ← getNat p "k"
     let b ← getNat p "b"
     pure (opOfStr op, n, k, b)
-  pure { cats := cats.map Int.toNat, watchers := watchers, hist := hist, panics := panics }
+  let enum := match getIntList j "enum" with | .ok l => l | .error _ => []
+  pure { cats := cats.map Int.toNat, watchers := watchers, hist := hist, panics := panics, enum := enum,
+         shutdown := optBool j "shutdown" }
 
 /-- kinds whose category is 9 are not registered: the yaml is rejected -/
 def validate (inp : In) (c : Config) : Config :=
@@ -359,6 +363,46 @@ def judge : Judge := liftJudge fun input obs => do
     systems := newSystems
     specs := newSpecs
     idx := idx + 1
+  -- shutdown: the real `Supervisor.close` ran after the history; model = `shutdown`, spec = one close per live object
+  let mut sawShutdownClose := false
+  if inp.shutdown then
+    match obs.getObjVal? "shutdown" with
+    | .error _ =>
+      agree := false
+      if note == "" then note := "shutdown requested but not observed"
+    | .ok sd =>
+      let ls ← getArr sd "log"
+      let slog ← ls.toList.mapM parseCall
+      for ((w, P), (sys, sp)) in (inp.watchers.zip params).zip (systems.zip specs) do
+        if w.consumer then
+          let olog := slog.filter (fun c => P.passes c.ent)
+          let mcalls := (shutdown P (fun m => m) sys.w.cons).log.drop sys.w.cons.log.length
+          if sortCalls olog != sortCalls mcalls then
+            agree := false
+            if note == "" then note := "shutdown: calls differ from the model"
+          expected := expected ++ [Json.mkObj [("shutdown", Json.arr (mcalls.map callJson).toArray)]]
+          if !olog.isEmpty then sawShutdownClose := true
+          for (n, r) in sp.regs do
+            let want := (view P sp.att r).toList.map (callClose P n)
+            let got := callsOf n olog
+            if spec && got != want then
+              spec := false
+              let detail :=
+                if got.map (·.op) != want.map (·.op) then ""
+                else if got.map (·.ent) != want.map (·.ent) then "!object" else "!panic-flag"
+              sig := s!"shutdown:want={wordStr want},got={wordStr got}{detail}"
+              note := s!"shutdown name {n}"
+          if spec && olog.any (fun c => !names.contains c.name) then
+            spec := false
+            sig := "shutdown:call-on-unknown-name"
+          nCalls := nCalls + olog.length
+          nNonInit := nNonInit + olog.length
+          if olog.any (·.panicked) then panicHit := true
+      let claimed (e : Entity) : Bool := (inp.watchers.zip params).any (fun wp => wp.1.consumer && wp.2.passes e)
+      if spec && slog.any (fun c => !claimed c.ent) then
+        spec := false
+        agree := false
+        sig := "shutdown:object-of-unwatched-kind-touched"
   let lateAttach := (hist.dropWhile (fun h => h.1.isNone)).any (fun h => h.1.isNone)
   tags := (if sawKindIn then ["kind-change-same-category"] else [])
     ++ (if sawKindAcross then ["kind-change-across-categories"] else [])
@@ -372,6 +416,11 @@ def judge : Judge := liftJudge fun input obs => do
     ++ (if survivorTouched then ["ns:survivor-touched-later"] else [])
     ++ (if nsRemoved then ["ns:namespace-emptied"] else [])
     ++ [if hist.length ≤ 6 then "len<=6" else if hist.length ≤ 16 then "len<=16" else "len>16"]
+    ++ (if inp.shutdown then ["shutdown"] else [])
+    ++ (if sawShutdownClose then ["shutdown:closes-live-objects"] else [])
+    ++ (match inp.enum with
+        | [j, total] => ["enum:len4-canonical", s!"enum:len4:pair{(j * 3 / total).toNat}"]
+        | _ => [])
   pure { agree := agree, spec := spec, expected := Json.arr expected.toArray, tags := tags,
          nontrivial := nCalls ≥ 3 && nNonInit ≥ 1, sig := sig, note := note }
 
